@@ -441,6 +441,9 @@ def run_write_arrays(ctx):
 
 
 def build(S):
+    from . import optdefaults
+
+    optdefaults.check(S, "hypnotoad.cases.tokamak:TokamakEquilibrium.describeDoubleNull", which=("eq",))
     S.under_contract(*FNS)
     S.assume("specification provenance: bout_up is written from doc/grid-file.rst and BOUT++'s BoutMesh::topology branch-cut semantics (lower X-point cuts inside ixseps1, upper X-point cuts inside ixseps2, upper target after ny_inner-1); it is a specification, not extracted from hypnotoad")
     S.trust("stubbed by their own contracts: findLegs / coreRegionToRegion / segmentsWithPsivals (C09, C19), Mesh.makeRegions (C01, C04), ParallelMap (C13); optionsfactory objects are real, size options are overridden by symbols through a proxy")
